@@ -28,6 +28,7 @@ Fixpoint priv_spec (nodes : list node) (i : Z) (flags : list bool) (priv : list 
                     | b :: fl => mem i priv = b /\ priv_spec r (i + 1) fl priv
                     end
       | OConstant _ _ | OZeros _ | OOnes _ => mem i priv = false /\ priv_spec r (i + 1) flags priv
+      | OVectorGet => True /\ priv_spec r (i + 1) flags priv       (* outside the theorem's fragment *)
       | _ => mem i priv = is_one_node_private (n_deps nd) priv /\ priv_spec r (i + 1) flags priv
       end
   end.
@@ -54,20 +55,22 @@ Proof.
                    match n_op nd with
                    | OInput _ => exists b, f = b :: f1 /\ mem i p1 = b
                    | OConstant _ _ | OZeros _ | OOnes _ => f1 = f /\ mem i p1 = false
+                   | OVectorGet => f1 = f /\ True
                    | _ => f1 = f /\ mem i p1 = is_one_node_private (n_deps nd) p
                    end).
     { assert (Hi : mem i p = false).
       { destruct (mem i p) eqn:M; [apply Hlt in M; lia | reflexivity]. }
       unfold ppa_step in E.
-      assert (Generic : forall pp, pp = (if is_one_node_private (n_deps nd) p then set_insert i p else p) ->
+      assert (Generic0 : forall (c : bool) pp, pp = (if c then set_insert i p else p) ->
                 (forall d, mem d pp = true -> d < i + 1) /\ (forall d, d < i -> mem d pp = mem d p) /\
-                mem i pp = is_one_node_private (n_deps nd) p).
-      { intros pp ->. destruct (is_one_node_private (n_deps nd) p).
+                mem i pp = c).
+      { intros c pp ->. destruct c.
         - repeat split.
           + intros d. rewrite mem_insert. destruct (d =? i) eqn:Ed; [lia|]. cbn. intros Hd. apply Hlt in Hd. lia.
           + intros d Hd. rewrite mem_insert. destruct (d =? i) eqn:Ed; [lia | reflexivity].
           + rewrite mem_insert, Z.eqb_refl. reflexivity.
         - repeat split; auto. intros d Hd. apply Hlt in Hd. lia. }
+      pose proof (Generic0 (is_one_node_private (n_deps nd) p)) as Generic.
       destruct (n_op nd); try discriminate;
         try (inversion E; subst; destruct (Generic _ eq_refl) as (G1 & G2 & G3); repeat split; auto; fail).
       - destruct f as [|b fl]; [discriminate|]. inversion E; subst. destruct b.
@@ -78,7 +81,10 @@ Proof.
         + repeat split; auto. intros d Hd. apply Hlt in Hd. lia. exists false. auto.
       - inversion E; subst. repeat split; auto. intros d Hd. apply Hlt in Hd. lia.
       - inversion E; subst. repeat split; auto. intros d Hd. apply Hlt in Hd. lia.
-      - inversion E; subst. repeat split; auto. intros d Hd. apply Hlt in Hd. lia. }
+      - inversion E; subst. repeat split; auto. intros d Hd. apply Hlt in Hd. lia.
+      - apply bind_ok in E as (d0 & _ & E). apply bind_ok in E as (d1 & _ & E).
+        destruct (mem d1 p); [discriminate|]. inversion E; subst.
+        destruct (Generic0 (mem d0 p) _ eq_refl) as (G1 & G2 & _). repeat split; auto. }
     destruct Step as (S1 & S2 & S3).
     destruct (IH _ _ _ _ _ _ _ H S1 Hb) as [K1 K2].
     split.
@@ -88,6 +94,7 @@ Proof.
       { intros Hin. unfold is_one_node_private. apply existsb_ext_in. eapply Forall_impl; [|exact (Hb0 Hin)].
         intros d Hd. cbv beta in Hd |- *. rewrite K1 by lia. apply S2. lia. }
       destruct (n_op nd) eqn:Ho;
+        try (destruct S3 as [-> _]; split; [exact I | exact K2]; fail);
         try (destruct S3 as [-> S3]; split; [rewrite K1 by lia; rewrite S3; try reflexivity; symmetry; apply Hdeps; reflexivity | exact K2]).
       destruct S3 as (b & -> & S3). split; [rewrite K1 by lia; exact S3 | exact K2].
 Qed.
@@ -223,9 +230,13 @@ Section Correct.
     is_input o = false -> mem n priv = true ->
     apply_op priv n o news olds out =
     (let* (out1, result_shares) :=
-       mapS (fun i out => let* (out', share) := share_vec priv i olds news out in emit o share [] out') parties out in
+       mapS (fun i out => let* (out', share) := op_shares priv o i olds news out in emit o share [] out') parties out in
      emit OCreateTuple result_shares [] out1).
   Proof. intros Hi Hm. unfold apply_op. rewrite Hm. cbn [negb]. destruct o; try discriminate; reflexivity. Qed.
+
+  Lemma op_shares_lin priv o i olds news out :
+    is_lin_op o = true -> op_shares priv o i olds news out = share_vec priv i olds news out.
+  Proof. destruct o; try discriminate; reflexivity. Qed.
 
   Lemma lin_share_sem priv d0 o a i out out' id ins0 env ins l v :
     is_lin_op o = true -> mem d0 priv = true ->
@@ -261,6 +272,8 @@ Section Correct.
     apply bind_ok in HM as ([o1 q0] & E0 & HM). apply bind_ok in HM as ([o2' l1] & HM & Hr). inversion Hr; subst; clear Hr.
     apply bind_ok in HM as ([o2 q1] & E1 & HM). apply bind_ok in HM as ([o3' l2] & HM & Hr). inversion Hr; subst; clear Hr.
     apply bind_ok in HM as ([o3'' q2] & E2 & HM). inversion HM; subst; clear HM.
+    rewrite (op_shares_lin _ _ _ _ _ _ Hl) in E0. rewrite (op_shares_lin _ _ _ _ _ _ Hl) in E1.
+    rewrite (op_shares_lin _ _ _ _ _ _ Hl) in E2.
     destruct (lin_share_sem _ _ _ _ _ _ _ _ _ _ _ _ _ Hl Hm E0 E Ha (eq_refl : znth [L a0; L a1; L a2] 0 = Ok (L a0)))
       as (e1 & Ev1 & M1 & F0 & X1 & Ty1).
     destruct (lin_share_sem _ _ _ _ _ _ _ _ _ _ _ _ _ Hl Hm E1 Ev1 (M1 _ _ Ha) (eq_refl : znth [L a0; L a1; L a2] 1 = Ok (L a1)))
@@ -318,6 +331,7 @@ Section Correct.
     match n_op nd with
     | OInput _ => exists b, flags = b :: flags' /\ mem i priv = b
     | OConstant _ _ | OZeros _ | OOnes _ => flags' = flags /\ mem i priv = false
+    | OVectorGet => flags' = flags /\ True
     | _ => flags' = flags /\ mem i priv = is_one_node_private (n_deps nd) priv
     end.
 
